@@ -333,6 +333,9 @@ def run_property(prop, harnesses, tier, seed, meta):
     os.makedirs(outdir, exist_ok=True)
     replaydir = os.path.join(BUILD, 'replay')
     os.makedirs(replaydir, exist_ok=True)
+    for fn_ in os.listdir(replaydir):
+        if fn_.startswith(prop + '.') and fn_.endswith('.json'):
+            os.remove(os.path.join(replaydir, fn_))
     workers = int(os.environ.get('VP_JOBS', '16'))
     with ThreadPoolExecutor(max_workers=workers) as ex:
         results = list(ex.map(lambda h: run_harness(h, outdir, tier), harnesses))
